@@ -454,7 +454,12 @@ SPEC = {
             'streams, self references and Parent cycles, references from the trailer, dangling references near and far '
             'from the new range, unreachable objects, bookmark forests (targets: pages, other objects, (0,0), dangling; '
             'orphan entries) x start values 0, 1, 2, n, n+-1, random, 1000, 2^31, 2^32-n-1, 2^32-n, 2^32-n+1, 2^32-1; '
-            '8% damaged page trees; 11 fixed boundary cases; non-trivial = at least 3 objects; distinct = distinct case text',
+            'number trees: mixed arrays that BEGIN with an integer or real and hold references further on (bare, in nested '
+            'number-first arrays, in dictionaries and ordinary arrays inside them) anchored in the catalog (PageLabels, '
+            'StructTreeRoot/ParentTree), the trailer or a page, with chains of objects reachable ONLY through such arrays; '
+            'max_id equal to / above (reserved ids, deleted objects) / below the highest number in use; documents already '
+            'consecutive from the start value (dense pass has nothing to move) with a stale max_id; '
+            '8% damaged page trees; 18 fixed boundary cases; non-trivial = at least 3 objects; distinct = distinct case text',
     'extra_trusted': ['C10: traverse_objects is modelled for reference-rewriting actions only (both actions used by renumbering)',
                       'C10: HashMap<u32, Bookmark> modelled as an association list printed in key order'],
 }
